@@ -876,7 +876,7 @@ func (p *Prog) EventsDeep(fn *ssa.Function) []*Ev {
 		for _, e := range evs {
 			if site != nil {
 				if e.Kind == "return" {
-					continue
+					e.Kind = "callee-return"
 				}
 				e.Site = site
 				e.Subst = descSubst
@@ -1118,4 +1118,43 @@ func (f *F) All() []*Ev {
 		}
 	}
 	return out
+}
+
+// ReturnDesc: v described through one level of private constructor-like helper: when v is
+// the result of a static call to a function of the same package with a single return
+// statement, the description of the value that function returns, in the caller's terms.
+func (p *Prog) ReturnDesc(v ssa.Value) string {
+	call, ok := v.(*ssa.Call)
+	if !ok {
+		return Desc(v)
+	}
+	sc := call.Call.StaticCallee()
+	if sc == nil || sc.Blocks == nil || !p.moduleFunc(sc) || sc.Pkg != call.Parent().Pkg || sc.Signature.Results().Len() != 1 {
+		return Desc(v)
+	}
+	var ret *ssa.Return
+	n := 0
+	EachInstr(sc, func(in ssa.Instruction) {
+		if r, ok := in.(*ssa.Return); ok && !(sc.Recover != nil && r.Block() == sc.Recover) {
+			ret = r
+			n++
+		}
+	})
+	if n != 1 {
+		return Desc(v)
+	}
+	saved := descSubst
+	ns := map[*ssa.Parameter]string{}
+	for k, val := range saved {
+		ns[k] = val
+	}
+	for i, par := range sc.Params {
+		if i < len(call.Call.Args) {
+			ns[par] = Desc(call.Call.Args[i])
+		}
+	}
+	descSubst = ns
+	d := Desc(resolveSpill(ret.Results[0], ret))
+	descSubst = saved
+	return d
 }
